@@ -11,7 +11,7 @@ RULE = ('case = (solver, cost, monitor kinds, termination, program of 3-11 API o
 ASSUMPTIONS = ['monitors are initially empty; SetGenerationMonitor is exercised with new=False (history kept)',
                'costs are finite (a cost returning inf is run as a separate class for DE2\'s documented counting shortcut)',
                'in-process map only']
-CLASSES = {'programs': {'quick': 800, 'thorough': 8000}}
+CLASSES = {'programs': {'quick': 800, 'thorough': 8000}, 'de2_inf_cost': {'quick': 24, 'thorough': 300}}
 MIN_EVENTS = {'quick': {'assert:c04': 15000, 'iterations': 1500, 'api_calls': 2000}}
 CASE_TIMEOUT = 120
 
@@ -21,6 +21,14 @@ def run_case(cls, idx, rng, obs):
     warnings.simplefilter('ignore')
     np.seterr(all='ignore')
     cfg = A.gen_program(rng, 'c04')
+    if cls == 'de2_inf_cost':
+        # DE2 without an evaluation monitor infers its evaluation count from the trial energies: a cost that legitimately
+        # returns inf on an evaluated point is not counted (recorded finding); kept as its own class so the core class stays finite
+        cfg['solver'] = 'de2'; cfg['npop'] = max(cfg.get('npop', 6), 6); cfg['strategy'] = 'Best1Bin'; cfg['CR'] = 0.9; cfg['F'] = 0.8
+        cfg['init'] = 'random'; cfg['init_lo'] = [v - 2.0 for v in cfg['x0']]; cfg['init_hi'] = [v + 2.0 for v in cfg['x0']]
+        cfg['evalmon_kind'] = 'none'; cfg['stepmon_kind'] = 'plain'; cfg['term'] = ['never']
+        cfg['cost'] = ['infregion', [0.0] * cfg['dim'], cfg['x0'][0] - 0.5]
+        cfg['ops'] = [['step', 4], ['step', 3]]
     obs.desc = cfg
     tmp = os.path.join(env.OUT, 'c04', '%d-%d' % (idx, os.getpid()))
     os.makedirs(tmp, exist_ok=True)
